@@ -20,6 +20,7 @@ import (
 	"os"
 	"path/filepath"
 	"strings"
+	"sync/atomic"
 	"time"
 
 	"reservoir/config"
@@ -170,6 +171,34 @@ func runC08x(r *emit.Rand) {
 						fail("failed-revalidation-fallback", det, "the relayed fallback request carries conditional headers the client never sent")
 						break
 					}
+				}
+			}
+		}
+		// (c) a stored answer, a Range request answered from the store, then a plain GET: the full answer is still the
+		// origin's own (status, entity headers, body) — what the part answer needed must not stick to the stored one
+		env.Origin.SetHandler(func(req e2elib.OriginRequest, k int) e2elib.Answer {
+			return answer("full", 200, "Cache-Control: max-age=600", `ETag: "f1"`, "Content-Type: text/x-relay", "X-Origin-Note: keep")
+		})
+		p3 := fmt.Sprintf("/part-then-full-%d", i)
+		if first, err := do(p3, nil); err == nil && first.Status == 200 {
+			spec := emit.Pick(r, []string{"bytes=0-4", "bytes=3-", "bytes=-5", "bytes=2-2"})
+			_, _ = do(p3, []string{"Range: " + spec})
+			resp, err := do(p3, nil)
+			total++
+			dist["part-then-full"]++
+			det := map[string]any{"backend": backend, "tls": tlsOn, "range": spec}
+			if err != nil || resp.BodyErr != "" {
+				e := resp != nil && resp.BodyErr != ""
+				fail("part-then-full", det, fmt.Sprintf("the plain GET after a Range request got no complete response (err=%v body_error=%v)", err, e))
+			} else {
+				det["got_status"], det["content_range"], det["content_length"] = resp.Status, resp.Header.Get("Content-Range"), resp.Header.Get("Content-Length")
+				switch {
+				case resp.Status != 200 || string(resp.Body) != string(first.Body):
+					fail("part-then-full", det, "the plain GET after a Range request was not answered with the full stored answer")
+				case resp.Header.Get("Content-Range") != "":
+					fail("part-then-full", det, "a full 200 answer carries the Content-Range of an earlier part answer")
+				case resp.Header.Get("Content-Type") != first.Header.Get("Content-Type") || resp.Header.Get("X-Origin-Note") != "keep" || resp.Header.Get("ETag") != `"f1"`:
+					fail("part-then-full", det, "the full answer no longer carries the origin's own entity headers")
 				}
 			}
 		}
@@ -482,7 +511,77 @@ func runC06x(r *emit.Rand) {
 // C09x: the cache directory refuses the removal of eviction victims (the victim's file is turned into a
 // non-empty directory, which makes os.Remove fail also for root) while the cache is at its size limit.
 // The origin is healthy all the time: every request must be answered with the origin's 200, promptly.
+// hangup: the client whose fetch is in flight hangs up while the (healthy, slow) origin is answering; a second client
+// that asked for the same resource meanwhile, and a third one asking afterwards, must get the origin's 200.
+func hangupC09x() {
+	for _, backend := range []string{"memory", "file"} {
+		for _, stale := range []bool{false, true} {
+			dir := filepath.Join(*flagOut, fmt.Sprintf("envh-%s-%v", backend, stale))
+			env, err := e2elib.Start(e2elib.Options{Backend: backend, Dir: dir})
+			if err != nil {
+				panic(err)
+			}
+			var slow atomic.Bool
+			arrived := make(chan struct{}, 8)
+			env.Origin.SetHandler(func(req e2elib.OriginRequest, k int) e2elib.Answer {
+				if slow.Load() {
+					arrived <- struct{}{}
+					time.Sleep(400 * time.Millisecond)
+				}
+				return e2elib.NewAnswer(200, []byte("T="+req.Target+";"+strings.Repeat("h", 300)), "Cache-Control: max-age=60", `ETag: "h1"`)
+			})
+			path := "/hangup"
+			if stale {
+				env.DoPlain(env.PlainRequest("GET", path, nil, nil), "GET", 4*time.Second)
+				env.Proxy.VerifCache().VerifAge(2 * time.Hour)
+			}
+			slow.Store(true)
+			starter, err := env.DialPlain(4 * time.Second)
+			if err != nil {
+				panic(err)
+			}
+			starter.Send(env.PlainRequest("GET", path, nil, nil), 2*time.Second)
+			select {
+			case <-arrived:
+			case <-time.After(3 * time.Second):
+			}
+			type res struct {
+				resp *e2elib.Response
+				err  error
+			}
+			follower := make(chan res, 1)
+			go func() {
+				rp, err := env.DoPlain(env.PlainRequest("GET", path, nil, nil), "GET", 6*time.Second)
+				follower <- res{rp, err}
+			}()
+			time.Sleep(80 * time.Millisecond) // the follower has joined the shared fetch
+			starter.Close()                   // the starter hangs up mid-answer
+			f := <-follower
+			slow.Store(false)
+			total++
+			name := fmt.Sprintf("starter-hangs-up/%s/stale=%v", backend, stale)
+			dist[name]++
+			det := map[string]any{"backend": backend, "stale_entry": stale}
+			check := func(who string, x res) {
+				if x.err != nil {
+					fail("starter-hangs-up", det, who+": no response although the origin answered fine: "+x.err.Error())
+				} else if x.resp.Status != 200 || !strings.HasPrefix(string(x.resp.Body), "T="+path+";") {
+					det[who+"_status"] = x.resp.Status
+					det[who+"_body"] = trunc(string(x.resp.Body))
+					fail("starter-hangs-up", det, who+" did not receive the origin's good answer after another client hung up")
+				}
+			}
+			check("the client that joined the shared fetch", f)
+			rp, err := env.DoPlain(env.PlainRequest("GET", path, nil, nil), "GET", 6*time.Second)
+			check("a client asking afterwards", res{rp, err})
+			env.Close()
+			os.RemoveAll(dir)
+		}
+	}
+}
+
 func runC09x(r *emit.Rand) {
+	hangupC09x()
 	for _, shards := range []int{1, 2, 32} {
 		dir := filepath.Join(*flagOut, fmt.Sprintf("envx%d", shards))
 		env, err := e2elib.Start(e2elib.Options{Backend: "file", Dir: dir, Shards: shards, Tune: func(cfg *config.Config) {
